@@ -3,6 +3,7 @@ package rules
 import (
 	"bytes"
 	"fmt"
+	"go/constant"
 	"go/token"
 	"go/types"
 	"strings"
@@ -10,6 +11,7 @@ import (
 	"golang.org/x/tools/go/ssa"
 
 	"mtverif/internal/core"
+	"mtverif/internal/fde"
 	"mtverif/internal/tree"
 )
 
@@ -91,6 +93,19 @@ var ruleZipMarkers = &core.Rule{ID: "R19.1", Min: 8,
 			}
 			s.Check(okm && okb && okRaw && okRet && string(mk) == sp.marker && mso == sp.mso, key, c.Pos(calls[0].Pos()), fmt.Sprintf("%q, first-entry list %v", sp.marker, sp.mso),
 				fmt.Sprintf("detector looks for %q with the OOXML first-entry list %v on header-unmodified=%v; expected %q / %v", mk, mso, okRaw, sp.marker, sp.mso))
+		}
+		// OOXML nodes are tried before apk and jar: a package that starts with [Content_Types].xml may also carry a manifest
+		for _, k := range []string{"application/vnd.android.package-archive", "application/jar"} {
+			if ns := tm.Find(k); len(ns) == 1 {
+				ki := childIndex(z, ns[0])
+				for _, sp := range specs[:3] {
+					oi, ok := idx[sp.mime]
+					if ok && ki >= 0 {
+						s.Check(oi < ki, fmt.Sprintf("%s precedes %s", shortMime(sp.mime), shortMime(k)), c.Pos(z.Pos), fmt.Sprintf("%d < %d", oi, ki),
+							fmt.Sprintf("%s is tried before %s among the children of zip: an OOXML package that also contains a manifest / dex entry among its first names would be reported as %s", shortMime(k), shortMime(sp.mime), shortMime(k)))
+					}
+				}
+			}
 		}
 		// apk before jar
 		apk := tm.Find("application/vnd.android.package-archive")
@@ -310,6 +325,38 @@ var ruleZipWalk = &core.Rule{ID: "R19.5", Min: 5,
 			}
 			s.Check(ok, fmt.Sprintf("cursor move #%d failure rejects", i+1), c.Pos(a.Pos()), "!advance => false", "a failed (out of range) cursor move does not reject the input")
 		}
+		// the bounded cursor itself: advance(n) succeeds exactly when 0 <= n <= len(remaining)
+		if g := adv[0].Call.StaticCallee(); g != nil {
+			np := g.Params[len(g.Params)-1]
+			var lens []ssa.Value
+			for _, ci := range core.Calls(g) {
+				if call, ok := ci.(*ssa.Call); ok && core.IsBuiltin(&call.Call, "len") {
+					lens = append(lens, call)
+				}
+			}
+			bad := ""
+			for _, tc := range []struct {
+				n, l int64
+				want bool
+			}{{-1, 5, false}, {-7, 5, false}, {0, 5, true}, {1, 5, true}, {5, 5, true}, {6, 5, false}, {0, 0, true}, {1, 0, false}} {
+				ev := newEval(c)
+				ev.Env = fde.Env{np: constant.MakeInt64(tc.n)}
+				for _, l := range lens {
+					ev.Env[l] = constant.MakeInt64(tc.l)
+				}
+				exits, err := ev.Walk(g.Blocks[0], nil, nil, 0)
+				if err != nil || len(exits) != 1 || exits[0].Ret == nil {
+					bad = fmt.Sprintf("cursor move not evaluable for n=%d len=%d: %v", tc.n, tc.l, err)
+					break
+				}
+				v, ok := exits[0].ValAt(ev, exits[0].Ret.Results[0])
+				if !ok || constant.BoolVal(v) != tc.want {
+					bad = fmt.Sprintf("advance(%d) on %d remaining bytes reports %v: a negative or too long move must fail (the walker relies on it to stop when no further header is found), any other must succeed", tc.n, tc.l, !tc.want)
+					break
+				}
+			}
+			s.Check(bad == "", "bounded cursor: move succeeds iff 0 <= n <= len", c.Pos(g.Pos()), "8 (n, len) order types tabulated", bad)
+		}
 		// size field
 		okSize := false
 		for _, ci := range core.Calls(w) {
@@ -450,3 +497,14 @@ var ruleZipWalk = &core.Rule{ID: "R19.5", Min: 5,
 			}
 		}
 	}}
+
+
+func shortMime(m string) string {
+	if i := strings.LastIndexByte(m, '.'); i >= 0 && strings.HasPrefix(m, "application/vnd.openxml") {
+		return m[i+1:]
+	}
+	if i := strings.LastIndexByte(m, '/'); i >= 0 {
+		return m[i+1:]
+	}
+	return m
+}
